@@ -72,9 +72,9 @@ def gen_rows(tier, seed, configs=None, kinds=True, lat_fn=None):
                 yield {'ell': ell, 'prj': prj, 'zone': z, 'lat': lat, 'lons': lons, 'kind': 'float'}
     if kinds:
         # angle-class inputs: a sub-lattice through every class (result must equal the float call at obj.dec())
-        for ell, prj, lons in (('grs80', 'utm', [-179.25, -71.5, 0.0, 0.3, 133.882]), ('ans', 'isg', [151.2, 141.000001])):
+        for ell, prj, lons in (('grs80', 'utm', [-179.25, -71.5, -0.45, 0.0, 0.3, 133.882]), ('ans', 'isg', [151.2, 141.000001])):
             for lat in (-79.99, -33.5, -0.3, 0.0, 0.15, 45.0, 83.75):
-                for kind in cfg.INTYPES[1:]:
+                for kind in cfg.INTYPES[1:] + cfg.NUMFORMS:
                     yield {'ell': ell, 'prj': prj, 'zone': 0, 'lat': lat, 'lons': lons, 'kind': kind}
 
 
@@ -103,7 +103,7 @@ def forward_row(case, rec):
                 rec.skip('input object of class %s could not be built (C08)' % kind)
                 res.append(None)
                 continue
-        st, r = rec.call(geo2grid, la, lo, case['zone'], ell, prj)
+        st, r = rec.call(geo2grid, cfg.unwrap(la), cfg.unwrap(lo), case['zone'], ell, prj)
         if st != 'ok':
             rec.fail('geo2grid raised on a position inside its domain', site='convert:geo2grid', observed=r,
                      case=single(case, lon), coords={'lat': lat, 'lon': lon})
